@@ -23,7 +23,7 @@ def opt_cases(r, n_random, exhaustive_upto=0, stride_all=False):
             for s in SZX:
                 out.append("blkopt %d %d %d" % (num, m, s))
     if stride_all:
-        for num in range(1 << 20):
+        for num in range(0, 1 << 20, stride_all):
             h = (num * 2654435761) >> 7
             out.append("blkopt %d %d %d" % (num, h & 1, (h >> 1) % 7))
     for _ in range(n_random):
@@ -217,4 +217,144 @@ def e2e_sched_random(r, n):
         sched = "".join(r.choice("....x2rh") for _ in range(r.randrange(1, 16)))
         out.append(e2e_line(r.choice(["b1", "b2"]), ln, r.randrange(250), r.randrange(2), cli, srv, app,
                             r.randrange(2), r.randrange(2), r.choice([0, 0, 0, 128, 300, 1500]), sched))
+    return out
+
+
+# ------------------------------------------------------------------ scripted peer
+def peer_cases(r, n, hostile=0.35):
+    """Block1 requests into the real server / Block2 responses into the real client, in any order,
+    with duplicates, gaps, interleaved Request-Tags / ETags and (hostile share) wrong sizes, wrong
+    More bits, changing block sizes, wrong or absent Size options, numbers beyond the body.
+    -> (driver line, model line)"""
+    out = []
+    for _ in range(n):
+        d = r.choice(["b1", "b2"])
+        s = r.choice([0, 0, 1, 1, 2, 3])
+        c = chunk(s)
+        k = r.randrange(1, 8)
+        ln = max(1, k * c + r.choice([-1, 0, 1, r.randrange(-c + 1, c)]))
+        nb = (ln + c - 1) // c
+        cfg = r.choice([7, 7, 7, 1, 2]) if d == "b1" else 7
+        tags = ["-"] if r.random() < 0.3 else [str(r.randrange(1, 4))]
+        if r.random() < 0.4:
+            tags.append(str(r.randrange(4, 7)))
+        if d == "b1" and r.random() < 0.3:
+            # a transfer to the second resource, with the same or another Request-Tag
+            tags.append(r.choice([tags[0], str(r.randrange(4, 7)), ""]) + "u")
+            tags = tags[-2:] if r.random() < 0.5 else tags
+        sizeopt = r.choice(["-", str(ln), str(ln)])
+        items = []
+        order = list(range(nb))
+        if r.random() < 0.6:
+            r.shuffle(order)
+        seq = []
+        for t in tags:
+            seq += [(t, b) for b in order]
+        if len(tags) > 1:
+            x = r.random()
+            if x < 0.4:
+                r.shuffle(seq)                       # two transfers at the same time
+            elif x < 0.8:
+                # the first one is abandoned part-way, then the second one runs
+                cut = r.randrange(1, max(2, nb))
+                seq = [(tags[0], b) for b in order[:cut]] + [(tags[1], b) for b in order]
+                if r.random() < 0.3:
+                    seq += [(tags[0], b) for b in order[cut:]]
+        # duplicates and gaps
+        seq2 = []
+        for it in seq:
+            x = r.random()
+            if x < 0.08:
+                continue
+            seq2.append(it)
+            if x > 0.85:
+                seq2.append(it)
+        if r.random() < 0.3 and seq2:
+            seq2 += [r.choice(seq2) for _ in range(r.randrange(1, 4))]
+        for (t, b) in seq2[:40]:
+            off = b * c
+            l = min(c, ln - off)
+            m = 1 if off + c < ln else 0
+            sz, ss, num = sizeopt, s, b
+            if r.random() < hostile:
+                h = r.randrange(8)
+                if h == 0:
+                    l = max(0, l + r.choice([-1, 1, -c // 2, 5]))
+                elif h == 1:
+                    m = 1 - m
+                elif h == 2:
+                    sz = r.choice(["-", str(ln - 1), str(ln + 7), "0", str(off + l)])
+                elif h == 3 and s > 0:
+                    ss = s - 1
+                    num = b * 2 + r.randrange(2)
+                    off = num * chunk(ss)
+                    l = min(chunk(ss), max(0, ln - off))
+                    m = 1 if off + chunk(ss) < ln else 0
+                elif h == 4 and b == 0 and s < 6:
+                    ss = s + 1
+                    l = min(chunk(ss), ln)
+                    m = 1 if chunk(ss) < ln else 0
+                elif h == 5:
+                    num = nb + r.randrange(3)
+                    off = min(ln, num * c)
+                    l = min(c, ln - off)
+                elif h == 6:
+                    off = max(0, off + r.choice([-3, 3, c]))
+                else:
+                    l = 0
+            items.append("%d/%d/%d/%s/%d/%d/%s" % (num, m, ss, sz, off, l, t))
+        if not items:
+            continue
+        seed = r.randrange(250)
+        drv = "peer %s %d %d %d 1 %s" % (d, ln, seed, cfg, " ".join(items))
+        mdl = "blkpeer %s %d %d %d %s" % (d, ln, seed, 0 if cfg == 7 else cfg, " ".join(items))
+        out.append((drv, mdl))
+    return out
+
+
+def e2e_two_uploads(r, n):
+    """two uploads to ONE resource on one session (bodies from different byte streams):
+    at the same time, or the first abandoned part-way (NON + a dropped block) and then the second;
+    schedules use loss and reordering only"""
+    out = []
+    for i in range(n):
+        s = r.choice([7, 7, 3, 4, 5])
+        c = 1024 if s == 7 else chunk(s)
+        la = r.randrange(2, 6) * c + r.choice([-1, 0, 1, r.randrange(-c + 1, c)])
+        lb = r.randrange(2, 6) * c + r.choice([-1, 0, 1, r.randrange(-c + 1, c)])
+        typ = r.randrange(2)
+        mode = i % 3
+        if mode == 0:
+            sched, start = ".", 0                       # concurrent, no loss
+        elif mode == 1:
+            sched = "".join(r.choice("....xh") for _ in range(r.randrange(1, 14)))
+            start = r.choice([0, 0, 2, 4])
+        else:
+            # abandon A: NON, drop one of its block messages, start B right after
+            typ = 1
+            k = 2 * r.randrange(1, 3)
+            sched, start = "." * k + "x", k + 1
+        out.append("e2e b11 %d %d %d %d %d 7 1 1 0 0 %s %d %d" %
+                   (la, r.randrange(250), typ, s if r.random() < 0.5 else 7, s if r.random() < 0.5 else 7,
+                    sched, lb, start))
+    return out
+
+
+def e2e_slow(r, n):
+    """slow but successful CON transfers: the first 3 or 4 transmissions of every request are lost
+    (MAX_RETRANSMIT is 4), the next one and all responses arrive; with 4 and more blocks the
+    transfer lasts longer than MAX_TRANSMIT_WAIT (93 s) although no exchange is abandoned, so the
+    lg_xmit / lg_srcv / lg_crcv expiry timers must be refreshed by progress"""
+    out = []
+    for i in range(n):
+        s = r.choice([2, 3, 4, 5, 6])
+        c = chunk(s)
+        k = r.randrange(4, 8)
+        ln = k * c + r.choice([-1, 0, 1, r.randrange(-c + 1, c)])
+        nreq = (ln + c - 1) // c + 1
+        sched = ""
+        for _ in range(nreq):
+            sched += "x" * r.choice([3, 4, 4, 4]) + ".."
+        d = "b1s" if i % 2 == 0 else "b2s"
+        out.append(e2e_line(d, ln, r.randrange(250), 0, s, 7, 7, r.randrange(2), r.randrange(2), 0, sched))
     return out
